@@ -1902,6 +1902,9 @@ class UserSpaceImpl(*_user_space_impl_base):
 
     def on_delete(self):
         self.model.refmgr.del_space_refs(self)
+        # Values other spaces computed by reading the references by attribute
+        for ref in self.own_refs.values():
+            self.model.clear_attr_referrers(ref)
         super().on_delete()
 
     def on_del_cells(self, name):
